@@ -1,6 +1,6 @@
 """Per-property check definitions: which generator spaces are explored and which invariants decide."""
 from engine import Ctx, Violation
-from vlib import Chars, cps
+from vlib import Chars, cps, TlaSet
 
 # delimiter pool (C07/C08/C01/C18): with / without self-overlap, multi-byte, identical, space-containing
 PAIRS = [("<", ">"), ("<!-- <", "> -->"), ("/* <", "> */"), ("// --", "-- //"), ("aab", "bba"), ("%%", "%%"),
@@ -571,7 +571,7 @@ def check_C05(ctx):
         ctx.job("time-cli[%s]" % off,
                 gens=[{"base": "GenCli", "consts": {"Docs": [Chars(d) for d in docs], "TargetPool": [Chars("a")],
                                                     "Zones": ["UTC", "Asia/Tokyo", "America/Los_Angeles", "unset"] if not q else ["Asia/Tokyo", "unset"],
-                                                    "Langs": [""], "OmitAll": False, "Part": "clean_stdout"}}],
+                                                    "Langs": [""], "OmitAll": False, "Part": "clean_stdout", "Currents": TlaSet(["given"])}}],
                 invariants=["Inv_C05", "Inv_C20"], ops=[], cli=True,
                 cfg={"ds": "<!-- <", "de": "> -->", "tl": "time-limited", "rm": "removal-marker", "off": off, "now": now},
                 nontrivial=None)
@@ -591,7 +591,7 @@ def check_C06(ctx):
     doc = "".join("<!-- <removal-marker name='%s'> -->\nx%d\n<!-- </removal-marker> -->\n" % (t, i)
                   for i, t in enumerate(["vec![]", "a", "", "feature1", "+00:00", "removal-marker"]))
     ctx.job("targets-cli", gens=[{"base": "GenCli", "consts": {"Docs": [Chars(doc)], "TargetPool": [Chars("a"), Chars("feature1")],
-                                                               "Zones": ["UTC"], "Langs": [""], "OmitAll": True, "Part": "stdout"}}],
+                                                               "Zones": ["UTC"], "Langs": [""], "OmitAll": True, "Part": "stdout", "Currents": TlaSet(["given"])}}],
             invariants=["Inv_C06"], ops=[], cli=True,
             cfg={"ds": "<!-- <", "de": "> -->", "tl": "time-limited", "rm": "removal-marker", "off": "+00:00", "targets": []},
             nontrivial=None)
@@ -794,16 +794,25 @@ def check_C20(ctx):
     langs = [""] if q else ["", "C", "en_US.UTF-8", "ja_JP.UTF-8"]
     ctx.job("cli-defaults", gens=[{"base": "GenCli", "consts": {"Docs": [Chars(d) for d in (CLI_DOCS_DEFAULT[:3] if q else CLI_DOCS_DEFAULT)],
                                                                 "TargetPool": [Chars("a"), Chars("feature1"), Chars("x y")],
-                                                                "Zones": zones, "Langs": langs, "OmitAll": True, "Part": "all"}}],
+                                                                "Zones": zones, "Langs": langs, "OmitAll": True, "Part": "all", "Currents": TlaSet(["given"])}}],
             invariants=["Inv_C20"], ops=[], cli=True,
             cfg={"ds": "<!-- <", "de": "> -->", "tl": "time-limited", "rm": "removal-marker", "off": "+00:00",
                  "now": [19000, 0], "targets": []}, nontrivial=None)
     ctx.job("cli-custom", gens=[{"base": "GenCli", "consts": {"Docs": [Chars(d) for d in CLI_DOCS_CUSTOM],
                                                               "TargetPool": [Chars("a"), Chars("b")],
-                                                              "Zones": zones[:1] if q else zones, "Langs": langs[:1], "OmitAll": False, "Part": "all"}}],
+                                                              "Zones": zones[:1] if q else zones, "Langs": langs[:1], "OmitAll": False, "Part": "all", "Currents": TlaSet(["given"])}}],
             invariants=["Inv_C20"], ops=[], cli=True,
             cfg={"ds": "/* <", "de": "> */", "tl": "tl", "rm": "rm", "off": "+09:00", "now": [19000, 3600], "targets": []},
             nontrivial=None)
+    # growth beyond C20: no (usable) --time-limited-current, the process reads the system clock; the harness reads it before
+    # and after the run, Conform!ConfWallClock compares with the library result (reported as DRIFT, never as a verdict)
+    ctx.job("cli-wallclock", gens=[{"base": "GenCli", "consts": {"Docs": [Chars(d) for d in CLI_DOCS_DEFAULT[:3]],
+                                                                 "TargetPool": [Chars("a"), Chars("feature1")],
+                                                                 "Zones": zones[:2], "Langs": langs[:1], "OmitAll": True, "Part": "stdout",
+                                                                 "Currents": TlaSet(["omit", "garbage"])}}],
+            invariants=["Inv_C20"], ops=[], cli=True, conform=True,
+            cfg={"ds": "<!-- <", "de": "> -->", "tl": "time-limited", "rm": "removal-marker", "off": "+00:00",
+                 "now": [19000, 0], "targets": []}, nontrivial=None)
 
 
 CHECKS = {"C01": check_C01, "C02": check_C02, "C03": check_C03, "C04": check_C04, "C07": check_C07, "C08": check_C08,
